@@ -50,6 +50,12 @@ impl Acc {
             r.add(&k, n);
         }
         for n in self.notes {
+            if let Some(rest) = n.strip_prefix("hit-rate: ") {
+                let mut v: Vec<Value> = r.extra.get("hit_rates").and_then(|v| v.as_array()).cloned().unwrap_or_default();
+                v.push(json!(rest));
+                r.set("hit_rates", Value::Array(v));
+                continue;
+            }
             if r.inconclusive.len() < 20 {
                 r.inconclusive.push(n);
             }
